@@ -89,6 +89,14 @@ EXC_CLASSES = {"ValueError": ValueError, "KeyError": KeyError, "ZeroDivisionErro
                "NonStrError": NonStrError, "BadArgError": BadArgError, "FormatError": FormatError}
 EXC_CLASSES.update(HOMONYMS)
 
+# exception classes that reflect.qual cannot NAME: qual is `clazz.__module__ + "." + clazz.__name__`, a TypeError when __module__ is
+# not a string.  NoModError: the class itself has none (FailureSlicer's reflect.qual(obj.type) raises); NoModBaseError: the class has
+# a module, one of its ancestors does not (obj.parents -- reflect.qual over the MRO -- raises).  lib/Failure.v: nameable = false
+NoModError = type("NoModError", (Exception,), {"__module__": None})
+NoModBaseError = type("NoModBaseError", (NoModError,), {"__module__": __name__})
+UNNAMEABLE = {"NoModError": NoModError, "NoModBaseError": NoModBaseError}
+EXC_CLASSES.update(UNNAMEABLE)
+
 
 # exception classes with a LONG ancestry ("exceptions of any class"): layered hierarchies (each layer derives from the one below,
 # rooted in the application's base error) and one class with many mixins.  The key says how long the MRO is (= len(Failure.parents),
@@ -184,6 +192,10 @@ class Plain(Referenceable):
     def remote_unsendable_result(self, depth):
         self._ran("unsendable_result")
         return nest(depth, Unsendable())
+
+    def remote_deep_result(self, depth):          # a result nested deeper than the interpreter's recursion limit
+        self._ran("deep_result")
+        return nest(depth, 1)
 
     def remote_text(self):
         self._ran("text")
@@ -570,6 +582,8 @@ def issue(rrs, spec):
         return rrs["plain"].callRemote("text", _resultConstraint=int)
     if k == "result-unsendable":
         return rrs["plain"].callRemote("unsendable_result", spec["depth"])
+    if k == "result-deep":
+        return rrs["plain"].callRemote("deep_result", spec["depth"])
     if k == "wrong-arity":
         return rrs["plain"].callRemote("echo", 1, 2, 3)
     raise ValueError(k)
@@ -723,10 +737,20 @@ class DeliveryLog:
         def log_local():
             return bool((b.tub and b.tub.logLocalFailures) or not b.tub)
 
+        def nameable(f):
+            """can FailureSlicer name the class of this failure?  (what lib/Failure.v calls nameable: reflect.qual(f.type) and
+            f.parents both return) -- observed on the failure itself, before anything is sent"""
+            try:
+                reflect.qual(f.type)
+                list(f.parents)
+                return True
+            except Exception:
+                return False
+
         def rejected(u, f):
             if u.stage > 0:
                 abort = bool(f.value.args and f.value.args[0] == "ABORT received")
-                self.inbound.append(dict(kind="rejected", reqid=u.reqID, abort=abort, log_local=log_local()))
+                self.inbound.append(dict(kind="rejected", reqid=u.reqID, abort=abort, log_local=log_local(), nameable=nameable(f)))
         _RV_HOOKS.clear()
         _RV_HOOKS[id(b)] = rejected
 
@@ -739,7 +763,7 @@ class DeliveryLog:
             except Exception:
                 repr_raises = True
             rec = dict(kind="delivered", reqid=delivery.reqID, schema=bool(delivery.methodSchema), ready=True, raises=False,
-                       result_ok=True, answer=0, repr_raises=repr_raises, render_raises=False, log_local=log_local())
+                       result_ok=True, answer=0, repr_raises=repr_raises, render_raises=False, log_local=log_local(), nameable=True)
             byreq[delivery.reqID] = rec
             bydel[id(delivery)] = rec
             alive.append(delivery)
@@ -790,13 +814,41 @@ class DeliveryLog:
                     str(f.value)
                 except Exception:
                     rec["render_raises"] = True
+                if rec.get("kind") == "delivered":
+                    rec["nameable"] = nameable(f)
             return orig_f(f, reqID, delivery)
 
+        # a non-Violation exception inside produce ends in Banana.sendFailed (connection dropped): which message was being written?
+        self.sent_after_crash = []
+        self.crashes = []       # [kind (0 answer / 2 error / None: outside any answer or error), reqID]
+        cur = []
+        orig_sf = b.sendFailed
+
+        def send_failed(f):
+            self.crashes.append(list(cur[-1]) if cur else [None, None])
+            return orig_sf(f)
+        b.sendFailed = send_failed
+
         def send(obj):
-            d = orig_send(obj)
-            if isinstance(obj, (call.AnswerSlicer, call.ErrorSlicer)):
+            mine = isinstance(obj, (call.AnswerSlicer, call.ErrorSlicer))
+            n0 = len(self.crashes)
+            if mine:
+                cur.append((0 if isinstance(obj, call.AnswerSlicer) else 2, obj.reqID))
+            try:
+                d = orig_send(obj)
+            finally:
+                if mine:
+                    cur.pop()
+            if mine and len(self.crashes) > n0:
+                # this message was never written: the model's SCrash (answer) / unnameable exception class (error)
+                rec = byreq.get(obj.reqID)
+                if rec is not None and isinstance(obj, call.AnswerSlicer):
+                    rec["answer"] = 2
+                return d
+            if mine:
                 ent = [0 if isinstance(obj, call.AnswerSlicer) else 2, obj.reqID]
-                self.sent.append(ent)
+                # (after a crash the connection is gone: what is still handed to send() never reaches the wire)
+                (self.sent_after_crash if self.crashes else self.sent).append(ent)
                 if ent[0] == 0:
                     def aborted(f, ent=ent, rec=byreq.get(obj.reqID)):
                         ent[0] = 1
@@ -809,7 +861,8 @@ class DeliveryLog:
 
     def summary(self):
         return dict(queue=[tuple(x) for x in self.queue], handled=list(self.handled), inbound=[dict(x) for x in self.inbound],
-                    sent=[tuple(x) for x in self.sent], active=sorted(self.b.activeLocalCalls.keys()))
+                    sent=[tuple(x) for x in self.sent], active=sorted(self.b.activeLocalCalls.keys()),
+                    crashes=[list(x) for x in self.crashes], sent_after_crash=[tuple(x) for x in self.sent_after_crash])
 
 
 def run_batch(specs, opts):
@@ -999,8 +1052,23 @@ def failure_state(cls, msg, unsafe, parents=None, tb_text=None):
         text = ("ok", str(f.value))
     except Exception as e:
         text = ("raises", type(e).__name__)
-    inputs = dict(type=reflect.qual(f.type), str=text, fallback=reflect.safe_str(f.value),
-                  stack=f.getTraceback() if unsafe else "", parents=list(f.parents))
+    # what getStateToCopy reads about the CLASS may raise: ("ok", text) / ("raises", exception class name)
+    try:
+        tname = ("ok", reflect.qual(f.type))
+    except Exception as e:
+        tname = ("raises", type(e).__name__)
+    try:
+        pnames = ("ok", list(f.parents))
+    except Exception as e:
+        pnames = ("raises", type(e).__name__)
+    try:
+        stack = f.getTraceback() if unsafe else ""
+    except Exception:
+        # (twisted's printTraceback calls reflect.qual(self.type) itself: raises only when tname does, which getStateToCopy meets first)
+        assert tname[0] == "raises"
+        stack = ""
+    inputs = dict(type=tname[1] if tname[0] == "ok" else None, type_res=tname, str=text, fallback=reflect.safe_str(f.value),
+                  stack=stack, parents=pnames[1] if pnames[0] == "ok" else None, parents_res=pnames)
     try:
         st = call.FailureSlicer(f).getStateToCopy(f, FakeBroker(unsafe))
     except Exception as e:
